@@ -399,7 +399,7 @@ package core
 //@ guard MemStorage.locToPairs by MemStorage.Mutex
 //@ func (*MemStorage).loc
 //@   requires[C11.memstorage_loc_needs_lock] heldW(s.Mutex)
-//@   ensures[C06.mem_loc] result != nil && has(s.locToPairs, loc) && s.locToPairs[loc] == result && s.locToPairs == old(s.locToPairs)
+//@   ensures[C06.mem_loc] has(s.locToPairs, loc) && s.locToPairs[loc] == result && s.locToPairs == old(s.locToPairs)
 //@   modifies s.locToPairs[*]
 
 // Reading a property of a location does not touch the system's location cache (assumed frame; used by C17).
@@ -646,5 +646,6 @@ package core
 //@   modifies allbut(F:core.IndexedState.|LK:)
 //@ func (*IndexedState).remHooks
 //@   ensures[C06.ix_remhooks_no_storage] stErr == old(stErr)
+//@   loop 1: invariant[C06.ix_remhooks_loop] stErr == old(stErr)
 //@ func (*IndexedState).Load
 //@   loop 1: invariant[C06.ix_load_loop] !stErr
